@@ -43,7 +43,8 @@ From RU Require Import Base.Prelude Base.Utf8 Model.AsciiSet Gen.Tables Model.Pe
   Proofs.C06_FragQuery
   Proofs.C07_Defs Proofs.C07_Histories Proofs.C07_Setters Proofs.C07_GetSet Proofs.C07_Small
   Proofs.C07_Corr Proofs.C07_EqFive Proofs.C07_EqOpaqueClass
-  Proofs.C01_EqRun Proofs.C07_SpecRun Proofs.C07_SpecProto Proofs.C07_EqProto Proofs.C07_EqSix.
+  Proofs.C01_EqRun Proofs.C07_SpecRun Proofs.C07_SpecProto Proofs.C07_EqProto Proofs.C07_EqSix
+  Proofs.C02_Enc Proofs.C01_EqPath Proofs.C01_EqClasses Proofs.C01_EqAuth Proofs.C07_EqPathClass Proofs.C07_EqAuthClass.
 
 (* ---------- the statement ---------- *)
 
@@ -385,6 +386,19 @@ Proof.
 Qed.
 Print Assumptions C07_sane_kept.
 
+(* ... and they are needed: a pair related by corr whose Standard's record is "http:/p" without a host
+   (no parser or setter of the Standard produces it): the code refuses http -> https because has_host()
+   is false, the Standard carries it out; the assignment is outside Known_C07 *)
+Theorem C07_protocol_needs_sane :
+  corr true toy_shs nosane_u nosane_su
+  /\ known_c07 nosane_u QProtocol (str "https") = 0
+  /\ exists u' su',
+       model_set true toy_hp toy_ho toy_hd QProtocol nosane_u (str "https") = Some u'
+       /\ spec_step toy_shp QProtocol nosane_su (str "https") = Some su'
+       /\ toy_api_agree u' su' = false.
+Proof. exact protocol_needs_sane. Qed.
+Print Assumptions C07_protocol_needs_sane.
+
 (* PARTIAL C07_statement: its one-step clause (`one_step`) with R := corrS, restricted to six of the ten
    setters and to values that are strings of scalar values (every Rust &str is).  Missing: host,
    hostname, pathname, href; and that parsing yields records related by corrS beyond the classes below. *)
@@ -454,6 +468,65 @@ Check C07_six_opaque_class : forall dbg hp ho hd shp shs input sch rem u ops, us
          /\ spec_run shp su (firstn n ops) = Some su'
          /\ model_api dbg u' = Some (spec_api_list shs su').
 Print Assumptions C07_six_opaque_class.
+
+(* parsing yields records related by corrS on the authority-less class of the C01 equivalence: no base,
+   non-special scheme, "scheme:/" not followed by a second '/', no ".." that meets a drive-letter-shaped
+   segment (F-C01-9) - dot segments, "/." marker, query, fragment, tab / LF / CR anywhere ... *)
+Theorem C07_pathonly_class_corrS : forall dbg hp ho hd shp shs input, usv_list input ->
+  in_class_pathonly input = true ->
+  exists su, spec_basic_url_parse shp input None = BDone su
+    /\ (parse_url dbg hp ho hd None None input = PErr Overflow
+        \/ exists u, parse_url dbg hp ho hd None None input = POk u /\ corrS dbg shs u su).
+Proof. exact pathonly_class_corrS. Qed.
+Check C07_pathonly_class_corrS : forall dbg hp ho hd shp shs input, usv_list input ->
+  in_class_pathonly input = true ->
+  exists su, spec_basic_url_parse shp input None = BDone su
+    /\ (parse_url dbg hp ho hd None None input = PErr Overflow
+        \/ exists u, parse_url dbg hp ho hd None None input = POk u /\ corrS dbg shs u su).
+Print Assumptions C07_pathonly_class_corrS.
+
+(* ... so C07_statement holds restricted to start URLs of that class and to the six setters, histories
+   included *)
+Theorem C07_six_pathonly_class : forall dbg hp ho hd shp shs input u ops, usv_list input ->
+  in_class_pathonly input = true ->
+  parse_url dbg hp ho hd None None input = POk u ->
+  six_ops ops -> outside_known dbg hp ho hd u ops ->
+  exists su, spec_basic_url_parse shp input None = BDone su
+    /\ model_api dbg u = Some (spec_api_list shs su)
+    /\ forall n, exists u' su',
+         model_run dbg hp ho hd u (firstn n ops) = Some u'
+         /\ spec_run shp su (firstn n ops) = Some su'
+         /\ model_api dbg u' = Some (spec_api_list shs su').
+Proof. exact six_from_pathonly_class. Qed.
+Check C07_six_pathonly_class : forall dbg hp ho hd shp shs input u ops, usv_list input ->
+  in_class_pathonly input = true ->
+  parse_url dbg hp ho hd None None input = POk u ->
+  six_ops ops -> outside_known dbg hp ho hd u ops ->
+  exists su, spec_basic_url_parse shp input None = BDone su
+    /\ model_api dbg u = Some (spec_api_list shs su)
+    /\ forall n, exists u' su',
+         model_run dbg hp ho hd u (firstn n ops) = Some u'
+         /\ spec_run shp su (firstn n ops) = Some su'
+         /\ model_api dbg u' = Some (spec_api_list shs su').
+Print Assumptions C07_six_pathonly_class.
+
+(* the class is inhabited: " A:/x/../y/./%2E%2e/z w/..//?q#f " *)
+Example C07_pathonly_class_inhabited :
+  in_class_pathonly (str " A:/x/../y/./%2E%2e/z w/..//?q#f ") = true.
+Proof. vm_compute. reflexivity. Qed.
+
+(* the canonical records of the authority class of the C01 equivalence ("scheme://[userinfo@]host[:port]
+   [/path][?q][#f]", non-special scheme; Proofs/C01_EqAuth.v auth_url / spec_auth_url) are related by
+   corr and the Standard's one is `sane`, given the four facts about host and username that the two
+   parsers establish.  (Not yet connected to parse_url: C01's class theorem hides the canonical form.) *)
+Theorem C07_auth_canonical_corrS : forall dbg shs sch un pw ht hi sh po segs q f,
+  auth_ok shs sch un pw ht hi sh po segs q f ->
+  (hi = HI_None <-> sh = SEmpty) -> (ht = [] -> hi = HI_None) -> starts_with_cp 64 ht = false ->
+  clean T_USERINFO un = true -> (hi = HI_None -> un = [] /\ pw = []) ->
+  corrS dbg shs (auth_url sch un pw ht hi po (flat_map (fun s => 47 :: s) segs) q f)
+                (spec_auth_url sch un pw sh po segs q f).
+Proof. exact corrS_auth. Qed.
+Print Assumptions C07_auth_canonical_corrS.
 
 (* the 20 start URLs of the small scope and the 15 of the protocol table (special, file, non-special,
    opaque path, empty host, credentials, port, "/." marker) are related by corrS to their Standard's
